@@ -328,11 +328,11 @@ Section Pipeline.
     flat_map (fun o => match o with Some a => [a] | None => [] end) l.
 
   (* tag_multiome_multi_processing: [done] is the list of job results in completion order
-     (imap_unordered); the header-only bam comes first *)
-  Definition multi_merge (done : list (option bam)) : bam := merge (([], []) :: somes done).
+     (imap_unordered); the header-only bam comes first: it carries the @RG lines of the INPUT header *)
+  Definition multi_merge (in_rgs : list Z) (done : list (option bam)) : bam := merge ((in_rgs, []) :: somes done).
 
-  Definition multi (hdr : list (Z * Z)) (recs : list rec) : res bam :=
-    bind (job_outputs hdr recs) (fun outs => Ok (multi_merge outs)).
+  Definition multi (in_rgs : list Z) (hdr : list (Z * Z)) (recs : list rec) : res bam :=
+    bind (job_outputs hdr recs) (fun outs => Ok (multi_merge in_rgs outs)).
 End Pipeline.
 
 (* ---------------------------------------------------------------- concrete instances for the executable model *)
@@ -448,7 +448,7 @@ Definition run_pipeline (v : Val) : Val :=
   let hdr := dec_hdr (nthV 1 v) in
   let recs := map dec_rec (getL (nthV 2 v)) in
   let it := simple_iter cvalid cmkey cap ev in
-  if multi_b then enc_res (multi csort cmerge it qf yi yo hdr recs)
+  if multi_b then enc_res (multi csort cmerge it qf yi yo (getZs (nthV 3 v)) hdr recs)
   else enc_res (single csort it qf yi yo hdr recs).
 
 Definition dec_row (v : Val) : Z * bool * bool * Z :=
